@@ -13,15 +13,18 @@ def build(ck):
 
 RULE = ("all histories of <= D ops over {actor x in A0..A3 + the master} x {load_object / clone_object / call_other-load of a "
         "file of creator Root|BB|w1|w2, seteuid(0 | own uid | another uid | Root), export_uid(y) for every other actor incl. "
-        "the master} under each of 12 master policies (valid_seteuid refuse/approve/own-uid-only x creator_file by-directory/"
-        "returns 0/returns a non-string/always the backbone uid), starting from two driver-loaded objects (uid w1 and w2, euid 0); "
+        "the master} under each of 14 master policies (valid_seteuid refuse/approve/own-uid-only x creator_file by-directory/"
+        "returns 0/returns a non-string/always the backbone uid; + valid_seteuid raises an error for every request / is own-uid-only "
+        "but raises for \"Root\") and with a master that does not define valid_seteuid() at all, starting from two driver-loaded objects (uid w1 and w2, euid 0); "
         "objects created by an op become actors (<= 4) or passive world objects; on the real lib/efuns/uids.c + "
         "give_uid_to_object/load_object/clone_object; after every op uid/euid of every object (C fields and getuid()/geteuid() "
         "efuns), the object count, the op's return value and the exact sequence of valid_seteuid/creator_file applies with "
         "arguments are compared with the lock-step (uid,euid) model; canonical state = policy + actors' (creator, clone?, uid, "
         "euid) + master (uid,euid) + loaded files")
 
-ASSUME = ["creator_file answers that are not strings make the driver use the uid NONAME; the model contains this fallback",
+ASSUME = ["a valid_seteuid() that raises an error, or a master without valid_seteuid(), is not an approval: the euid must not change "
+          "(seteuid may return 0 or, when the master raised, pass the error on); the manual pages do not say otherwise",
+          "creator_file answers that are not strings make the driver use the uid NONAME; the model contains this fallback",
           "when creator_file names the loader's own uid the new object gets that uid and euid 0 even if it is the backbone uid "
           "(the driver tests this before the backbone rule; the manual page says backbone objects get uid and euid of the loader)",
           "a backbone-trusted creation by a loader without euid (possible only for the master) must still give the object a uid: "
@@ -35,13 +38,15 @@ def run(ck):
     # policies are ordered: creator_file by-directory x valid_seteuid {own, approve, refuse} come first (--ncfg=3)
     if ck.tier == "quick":
         ck.explore(P, ["--depth=4", "--cfg=0", "--kinds=2"], "d4-by-directory-own", budget=0, deadline_s=110, jobs=JOBS)
-        ck.explore(P, ["--depth=3", "--ncfg=12", "--kinds=2"], "d3-all-policies", budget=0, deadline_s=90, jobs=JOBS)
-        ck.explore(A, ["--depth=2", "--ncfg=12", "--kinds=3"], "d2-all-policies-asan", budget=0, deadline_s=35, jobs=JOBS)
+        ck.explore(P, ["--depth=3", "--ncfg=14", "--kinds=2"], "d3-all-policies", budget=0, deadline_s=90, jobs=JOBS)
+        ck.explore(P, ["--depth=3", "--cfg=0", "--master-nv=1", "--kinds=2"], "d3-master-without-valid_seteuid", budget=0, deadline_s=20, jobs=JOBS)
+        ck.explore(A, ["--depth=2", "--ncfg=14", "--kinds=3"], "d2-all-policies-asan", budget=0, deadline_s=35, jobs=JOBS)
     else:
         # deadlines are sized for a heavily loaded machine (sum 40 min)
         ck.explore(P, ["--depth=5", "--cfg=0", "--kinds=2"], "d5-by-directory-own", budget=0, deadline_s=800, jobs=JOBS)
-        ck.explore(P, ["--depth=4", "--ncfg=12", "--kinds=3"], "d4-all-policies", budget=0, deadline_s=1200, jobs=JOBS)
-        ck.explore(A, ["--depth=3", "--ncfg=12", "--kinds=3"], "d3-all-policies-asan", budget=0, deadline_s=400, jobs=JOBS)
+        ck.explore(P, ["--depth=4", "--ncfg=14", "--kinds=3"], "d4-all-policies", budget=0, deadline_s=1200, jobs=JOBS)
+        ck.explore(P, ["--depth=4", "--cfg=0", "--master-nv=1", "--kinds=3"], "d4-master-without-valid_seteuid", budget=0, deadline_s=100, jobs=JOBS)
+        ck.explore(A, ["--depth=3", "--ncfg=14", "--kinds=3"], "d3-all-policies-asan", budget=0, deadline_s=300, jobs=JOBS)
     ck.finish(vlib.mc_coverage(ck.parts, RULE), assumptions=ASSUME)
 
 
